@@ -34,10 +34,14 @@ func oracle(ops, outs []string) *corr.Violation {
 	curMsg, tc := "", 0
 	inst := ""
 	seeds := map[string]string{}
+	zeroLabel := "?"
 	pushSig := func(i int, key string) {
 		f := strings.Fields(outs[i])
 		if len(f) == 3 && f[0] == "sig" {
 			labels = append(labels, f[2])
+			if strings.HasPrefix(ops[i], "sigzero") {
+				zeroLabel = f[2]
+			}
 			if key != "" {
 				honestLabel[key] = f[2]
 			}
@@ -57,6 +61,7 @@ func oracle(ops, outs []string) *corr.Violation {
 			T, _ = strconv.Atoi(w[1])
 			honest, hasDkg = false, false
 			labels, dels = nil, nil
+			zeroLabel = "?"
 			honestLabel = map[string]string{}
 			curMsg, inst = "", ""
 		case "rundkg":
@@ -114,8 +119,8 @@ func oracle(ops, outs []string) *corr.Violation {
 			// while the message was known (parked deliveries may be displaced in the cache, which keeps one per party)
 			upper, lower := map[int]bool{}, map[int]bool{}
 			isValid := func(d delivery) (valid, sure bool) {
-				if curMsg == "" || !hasDkg || d.stc != tc || d.label == "" {
-					return false, true
+				if curMsg == "" || !hasDkg || d.stc != tc || d.label == "" || d.label == zeroLabel {
+					return false, true // (the library refuses the zero signature: a zero aggregated secret cannot sign)
 				}
 				hl, ok := honestLabel[strconv.Itoa(d.k)+"|"+curMsg]
 				if !ok {
@@ -140,7 +145,7 @@ func oracle(ops, outs []string) *corr.Violation {
 			if seed != "-" && n < T {
 				return mk(i, "seed-below-threshold", fmt.Sprintf("seed set with %d < T=%d shares", n, T))
 			}
-			if seed == "-" && len(valid) >= T && T >= 1 {
+			if seed == "-" && len(valid) >= T && T >= 1 && zeroLabel != "?" {
 				return mk(i, "threshold-reached-no-seed", fmt.Sprintf("%d parties delivered verifying shares (T=%d) but no seed", len(valid), T))
 			}
 			if seed != "-" {
